@@ -59,6 +59,8 @@ type World struct {
 	cursorStores         map[string][2]int
 	posSum               []resolvedArg
 	posSumDone           bool
+	tableDepth           int
+	synonyms             map[string]string
 	pkgInits             map[string]*concr
 	pkgInitErr           map[string]string
 }
